@@ -47,6 +47,10 @@ def mk_tags(rng):
 
     for dt in ATOMS:
         add("a_" + dt, dt, 0)
+    # small tags with long symbolic names: the request entry is much larger than the reply entry
+    for dt in ("BOOL", "SINT", "INT"):
+        if dt in ATOMS:
+            add("Long_%s_" % dt + "n" * rng.choice([20, 31, 33]), dt, 0)
     for i, (dt, n) in enumerate([("SINT", 10000), ("INT", 6000), ("DINT", 3000), ("LINT", 1500), ("REAL", 3000), ("SINT", 9000)]):
         add("arr%d_%s" % (i, dt) + "x" * rng.randrange(0, 30), dt, n)
     add("bools", "DWORD", 400)
@@ -165,6 +169,15 @@ def gen_read_requests(rng, tags, conn, thorough):
         lists.append([st])
         lists.append([st, rng.choice(small)])
         lists.append([rng.choice(small), st, rng.choice(small)])
+    # many small tags and nothing else: the request entries (path by name or by instance id) outweigh the reply
+    # entries, so the REQUEST side is what fills the packet
+    tiny = [n for n in small if ATOMS[tags[n]["data_type"]] <= 2]
+    longs = [n for n in tiny if n.startswith("Long_")]
+    for n in ([12, 20, 45, 60, 120, 200, 400, 700] if thorough else [20, 60, 120, 400 if conn > 1000 else 200]):
+        lists.append([rng.choice(tiny) for _ in range(n)])
+        if longs:
+            lists.append([rng.choice(longs) for _ in range(n)])
+            lists.append([rng.choice(longs if rng.random() < 0.7 else small) for _ in range(n)])
     # random mixes incl. errors, duplicates, many small tags (several groups)
     for _ in range(400 if thorough else 60):
         n = rng.choice([0, 1, 2, 3, 5, 8, 20, 60, 150])
